@@ -105,6 +105,32 @@ CHECKS["C10"] = dict(
     design_ref="5 C10", technique="Coq proof (non-interference by nested structural induction) + extracted-model differential correspondence on Debug output + rustc compile probes",
     note="Derived Debug layout and PhantomData type-name text are modelled/oracle; public strings restricted to printable ASCII for exact comparison.")
 
+CHECKS["C06"] = dict(
+    text="Theorems over the JSON AST for ANY extension schema satisfying ef_good: an accepted document's accessors equal exactly what the document contains (access/refresh token byte for byte, expires_in for every u64, scope split on single spaces, "
+         "absent or null = none, token_type via ASCII-lower-casing, extension members delivered); member order and unknown members are irrelevant; every canonical value's encoding is accepted; a missing or non-string access_token/token_type, or a non-object, is rejected. "
+         "JSON text -> AST is the Gallina serde_json reader (lib/Json.v). Correspondence: value-model documents with hostile strings and escaping, all corruptions, direct and through 200 replies, standard and extension types.",
+    design_ref="5 C06", technique="Coq proof (lookup-style serde model: permutation invariance, field theorems, round trip) + extracted-model differential correspondence on generated documents",
+    note="serde derive and serde_json are Gallina models validated differentially; token_type spellings with cased non-ASCII letters are outside model and generator.")
+CHECKS["C15"] = dict(
+    text="Theorems: `active` is reported exactly as the document's JSON boolean (so active = true only for the literal true; anything else does not decode); absent or null optional members are none; present members verbatim "
+         "(scope split, strings, token_type case-insensitive, exp/iat/nbf = that many seconds within chrono's range incl. negative, aud string or array); member order irrelevant; canonical values accepted. "
+         "Correspondence: value-model documents, every corruption of active, timestamp boundaries, aud shapes, null for each optional member, direct and through 200 replies.",
+    design_ref="5 C15", technique="Coq proof (field theorems over the serde model) + extracted-model differential correspondence on generated documents",
+    note="chrono's whole-second DateTime range is a pair of model constants exercised at +-1 by the generator.")
+CHECKS["C16"] = dict(
+    text="Theorems: for the four families (any well-behaved extension schema; three error families) decode(encode v) = Some v for canonical values, every accepted value is canonical, hence accepted values round-trip; "
+         "the compact JSON text parses back (json_parse (json_print j) = Some j for every canonical j) and re-serialising reproduces the text; none is omitted, never null; scopes one space-delimited string; RFC member names. "
+         "The class scopes = Some([]) is refuted by a machine-checked witness and recorded as a known finding. Correspondence: parsed and built values serialised, read back, serialised again.",
+    design_ref="5 C16", technique="Coq proof (encoder/decoder round trip, JSON print/parse round trip) + differential round-trip runs on parsed and built values; known-findings file",
+    note="Round trip to text needs valid UTF-8 strings (json_canonical), as every Rust String is.")
+CHECKS["C19"] = dict(
+    text="Theorems: accepted device-authorization documents are reported exactly (codes, verification_uri_complete verbatim; URI under either member name and valid; expires_in/interval exact for every u64; missing or null interval = 5, explicit 0 = 0); "
+         "missing device_code/user_code/URI/expires_in, both URI names at once, or a negative/fractional/string interval are rejected; polling from an accepted response starts with exactly that interval and deadline start+expires_in. "
+         "Correspondence: value-model documents, interval/expires/URI classes, corruptions, direct and through 200 replies, and the real poll loop started from such responses.",
+    design_ref="5 C19", technique="Coq proof (field theorems over the serde model, first-poll lemma over the DevicePoll model) + extracted-model differential correspondence",
+    note="Url::parse acceptance of the verification URI is an oracle supplied with each case.")
+CHECKS["C14"]["text"] = CHECKS["C14"]["text"] + " Description/URI delivery, unknown-member skipping and the serialise/read-back round trip are theorems over the serde model; error documents are also decoded from JSON text and through non-200 replies on 7 request kinds."
+
 NOT_YET = {}
 
 
